@@ -317,6 +317,9 @@ fn verdict_for(id: &str, target: &str, data: &[u8], st: &mut Stats) -> Verdict {
 /// Replay of a stored fuzz input (`check` = "fuzz:<target>" or "fuzzbin:<target>").
 pub fn replay(id: &str, check: &str, case: &Value) -> Option<Verdict> {
     let (kind, target) = check.split_once(':')?;
+    if kind == "miri" {
+        return Some(replay_miri(case));
+    }
     let data = unhex(case.get("bytes_hex")?.as_str()?)?;
     match kind {
         "fuzz" => {
@@ -380,7 +383,54 @@ fn read_dir_files(dir: &str) -> Vec<(String, Vec<u8>)> {
 /// 1. replays the committed corpus of the property's fuzz targets (both tiers);
 /// 2. thorough tier: folds campaign statistics (written by scripts/fuzz.sh) into
 ///    the evidence and re-judges the failures the campaign reported.
+/// Replays a Miri run (`check` = "miri:names"): re-runs scripts/miri_names.sh with
+/// the recorded seed and case count.
+fn replay_miri(case: &Value) -> Verdict {
+    let seed = case["seed"].as_u64().unwrap_or(1);
+    let cases = case["cases"].as_u64().unwrap_or(400);
+    let out = std::process::Command::new(format!("{VERIF_ROOT}/scripts/miri_names.sh"))
+        .env("VERIF_SEED", seed.to_string())
+        .env("MIRI_NAMES_CASES", cases.to_string())
+        .output();
+    match out {
+        Ok(o) if o.status.code() == Some(0) => Ok(()),
+        Ok(o) if o.status.code() == Some(1) => {
+            let log = std::fs::read_to_string(format!("{VERIF_ROOT}/.work/miri-names.log")).unwrap_or_default();
+            let line = log.lines().find(|l| l.contains("Undefined Behavior") || l.contains("panicked")).unwrap_or("failure").to_string();
+            Err(Fail::new("miri-names-failure", format!("the name code fails under Miri (seed {seed}, {cases} cases): {line}")))
+        }
+        _ => {
+            eprintln!("INFRA: scripts/miri_names.sh could not run");
+            std::process::exit(2);
+        }
+    }
+}
+
+/// Thorough tiers of C14 and C16: the result of the Miri run that the runner script
+/// performed before vcheck (scripts/miri_names.sh).
+fn fold_miri(ctx: &Ctx, report: &mut Report) {
+    if ctx.tier != Tier::Thorough || !(ctx.id == "C14" || ctx.id == "C16") {
+        return;
+    }
+    let Ok(text) = std::fs::read_to_string(format!("{VERIF_ROOT}/.work/miri-names.json")) else {
+        eprintln!("WARNING: no Miri result for {} (was scripts/miri_names.sh run?)", ctx.id);
+        return;
+    };
+    let Ok(v) = serde_json::from_str::<Value>(&text) else { return };
+    let cases = v["cases"].as_u64().unwrap_or(0);
+    report.stats.evals(cases);
+    report.stats.class_n("miri-cases-name-code", cases);
+    if v["passed"].as_bool() == Some(false) {
+        let case = json!({"seed": v["seed"], "cases": v["cases"]});
+        if let Err(f) = replay_miri(&case) {
+            report.violations.push(Violation { check: "miri:names".to_string(), case, fail: f });
+        }
+    }
+    report.stats.extra.insert("miri_names".to_string(), v);
+}
+
 pub fn after_run(ctx: &Ctx, report: &mut Report) {
+    fold_miri(ctx, report);
     let targets = targets_of(&ctx.id);
     if targets.is_empty() {
         return;
